@@ -39,7 +39,7 @@ import (
 	"strings"
 )
 
-const version = "vinstr-10"
+const version = "vinstr-11"
 
 var (
 	repo    = flag.String("repo", "/repo", "repository root")
@@ -463,6 +463,31 @@ func (r *rw) writeTargets(n ast.Node, set map[ast.Expr]bool) {
 	})
 }
 
+// atomicCall recognises atomic.F(&x.field, ...) with atomic = package sync/atomic; write is false for loads.
+func (r *rw) atomicCall(call *ast.CallExpr) (sel *ast.SelectorExpr, write bool, ok bool) {
+	fun, isSel := call.Fun.(*ast.SelectorExpr)
+	if !isSel || len(call.Args) == 0 {
+		return nil, false, false
+	}
+	id, isId := fun.X.(*ast.Ident)
+	if !isId {
+		return nil, false, false
+	}
+	pn, isPkg := r.info.Uses[id].(*types.PkgName)
+	if !isPkg || pn.Imported().Path() != "sync/atomic" {
+		return nil, false, false
+	}
+	u, isU := call.Args[0].(*ast.UnaryExpr)
+	if !isU || u.Op != token.AND {
+		return nil, false, false
+	}
+	s, isS := u.X.(*ast.SelectorExpr)
+	if !isS {
+		return nil, false, false
+	}
+	return s, !strings.HasPrefix(fun.Sel.Name, "Load"), true
+}
+
 // pointeeCall: sel is the X of a method call through a pointer-to-struct field (e.g. c.reader.ReadBytes).
 func (r *rw) pointeeCall(call *ast.CallExpr) (*ast.SelectorExpr, bool) {
 	fun, ok := call.Fun.(*ast.SelectorExpr)
@@ -607,12 +632,22 @@ func (r *rw) accesses(nodes ...ast.Node) []ast.Stmt {
 		}
 		writes := map[ast.Expr]bool{}
 		r.writeTargets(n, writes)
+		atomicSel := map[*ast.SelectorExpr]bool{}
 		ast.Inspect(n, func(n ast.Node) bool {
 			switch x := n.(type) {
 			case *ast.FuncLit:
 				x.Body.List = r.stmts(x.Body.List)
 				return false
 			case *ast.CallExpr:
+				if sel, write, ok := r.atomicCall(x); ok {
+					// atomic.F(&obj.field, ...): an atomic access of the field, not a plain one
+					atomicSel[sel] = true
+					if k, ok := r.trackedField(sel); ok && r.written[k] {
+						if obj, ok := r.objExpr(sel.X); ok {
+							outS = append(outS, &ast.ExprStmt{X: r.call("AccessAtomic", obj, strLit(k.field), boolLit(write), strLit(r.site(x.Pos())))})
+						}
+					}
+				}
 				if inner, ok := r.pointeeCall(x); ok {
 					k, _ := r.trackedField(inner)
 					if r.written[fieldKey{k.typ, k.field + "*"}] {
@@ -622,6 +657,9 @@ func (r *rw) accesses(nodes ...ast.Node) []ast.Stmt {
 					}
 				}
 			case *ast.SelectorExpr:
+				if atomicSel[x] {
+					return true
+				}
 				if k, ok := r.trackedField(x); ok && r.written[k] {
 					if t := r.info.TypeOf(x); t != nil && isSyncType(t) {
 						return true
